@@ -5,10 +5,15 @@ use super::{Checker, Controller, Rule};
 use crate::base::{BlockType, StatNode, TokenResult};
 use crate::utils;
 use std::convert::TryInto;
+#[cfg(not(flea1lt_sentinel_rust_verif))]
 use std::sync::{
     atomic::{AtomicI64, Ordering},
     Arc, Weak,
 };
+#[cfg(flea1lt_sentinel_rust_verif)]
+use std::sync::{atomic::Ordering, Arc, Weak};
+#[cfg(flea1lt_sentinel_rust_verif)]
+use crate::verif::sync::{atomic::AtomicI64};
 
 static BLOCK_MSG_QUEUEING: &str = "flow throttling check blocked, threshold is <= 0.0";
 
